@@ -3,6 +3,7 @@
 package gldap
 
 import (
+	"runtime"
 	"errors"
 	"crypto/tls"
 	"crypto/x509"
@@ -107,20 +108,36 @@ func H_C08_endings() {
 	gates := []*vGateT{vGate("h1"), vGate("h2")}
 	var mu sync.Mutex
 	running, finished := 0, 0
+	// how the first handler ends: it returns, panics (gldap recovers), or ends its goroutine
+	// with runtime.Goexit (what t.FailNow / require do inside a handler)
+	firstEnds := 0
+	if inflight > 0 {
+		firstEnds = vLen("firstHandlerEnds", 2)
+	}
 	hf := func(w *ResponseWriter, r *Request) {
 		mu.Lock()
 		running++
 		mu.Unlock()
 		vEvent("handler.enter", r.ID)
+		defer func() {
+			vEvent("handler.exit", r.ID)
+			mu.Lock()
+			running--
+			finished++
+			mu.Unlock()
+		}()
 		if r.ID <= 2 {
 			vGateWait(gates[r.ID-1])
 		}
 		_ = w.Write(r.NewResponse(WithResponseCode(ResultSuccess)))
-		vEvent("handler.exit", r.ID)
-		mu.Lock()
-		running--
-		finished++
-		mu.Unlock()
+		if r.ID == 1 {
+			switch firstEnds {
+			case 1:
+				panic("handler panics")
+			case 2:
+				runtime.Goexit()
+			}
+		}
 	}
 	vAssume(v.mux.Delete(hf) == nil)
 	vAssume(v.mux.ExtendedOperation(func(w *ResponseWriter, r *Request) { panic("handler panic on the read loop") }, ExtendedOperationStartTLS) == nil)
@@ -371,6 +388,10 @@ func H_C09_acceptstep() {
 	v.goStop()
 	vQuiesce()
 	vAssertE(v.ranRun && v.runErr == nil, "Run returns nil after Stop")
+	vAssertE(v.ranStop && vConnClosed(nc) == 1, "when Stop and Run have returned the accepted connection has been closed (once)")
+	v.mu.Lock()
+	vAssertE(len(v.closes) == 1, "and reported via OnClose (once)")
+	v.mu.Unlock()
 	vReach("accept step")
 }
 
